@@ -56,6 +56,8 @@ type Path struct {
 	initDone   map[*ssa.Package]bool
 	deferFrame *Frame
 	inInit     int
+	cloneMap   map[*Cell]*Cell
+	cloneMaps  map[*MapObj]*MapObj
 	inputs     []InputRec
 	observes   []obsRec
 	reached    []string
@@ -106,6 +108,9 @@ type Engine struct {
 	wantWitness int
 	stopOnViolation bool
 
+	tpl      *Path
+	tplErr   string
+	tplMu    sync.Mutex
 	mu       sync.Mutex
 	work     [][]int
 	active   int
@@ -365,6 +370,7 @@ func (e *Engine) Explore(harness *ssa.Function) *Result {
 	e.res = &Result{Harness: harness.Name(), Outcomes: map[string]int{}, Asserts: map[string]*assertStat{}, Reach: map[string]int{},
 		Unsupported: map[string]int{}, funcs: map[string]bool{}, cps: map[string]bool{}, sigSeen: map[string]bool{}}
 	e.cond = sync.NewCond(&e.mu)
+	e.initTemplate(harness)
 	e.work = [][]int{{}}
 	e.active = 0
 	var wg sync.WaitGroup
@@ -574,6 +580,16 @@ func (p *Path) globalCell(g *ssa.Global) *Cell {
 	if c, ok := p.globals[g]; ok {
 		return c
 	}
+	if tpl := p.eng.tpl; tpl != nil && tpl != p {
+		// package initialisation is input-independent: it is executed once in a
+		// template path and its heap is cloned lazily into every explored path
+		p.eng.tplMu.Lock()
+		tc := tpl.globalCell(g)
+		c := p.cloneCell(tc)
+		p.eng.tplMu.Unlock()
+		p.globals[g] = c
+		return c
+	}
 	pkg := g.Pkg
 	if p.eng.transparent(pkg.Pkg.Path()) {
 		p.ensureInit(pkg)
@@ -631,4 +647,167 @@ func (p *Path) opaqueGlobal(g *ssa.Global) Value {
 	}
 	p.unsup("global of opaque package: %s (%v)", name, t)
 	return nil
+}
+
+
+// ---------- cloning of the template heap ----------
+
+func (p *Path) cloneCell(c *Cell) *Cell {
+	if c == nil {
+		return nil
+	}
+	if p.cloneMap == nil {
+		p.cloneMap = map[*Cell]*Cell{}
+		p.cloneMaps = map[*MapObj]*MapObj{}
+	}
+	if n, ok := p.cloneMap[c]; ok {
+		return n
+	}
+	n := p.newCell(nil, c.typ)
+	p.cloneMap[c] = n
+	n.v = p.cloneValue(c.v)
+	return n
+}
+
+func (p *Path) cloneValue(v Value) Value {
+	switch x := v.(type) {
+	case StructV:
+		var f []Value
+		for i, e := range x.f {
+			ne := p.cloneValue(e)
+			if f == nil && !sameValueObj(ne, e) {
+				f = make([]Value, len(x.f))
+				copy(f, x.f[:i])
+			}
+			if f != nil {
+				f[i] = ne
+			}
+		}
+		if f == nil {
+			return x
+		}
+		return StructV{f}
+	case ArrayV:
+		if len(x.e) > 0 {
+			if _, scalar := x.e[0].(*Term); scalar {
+				return x
+			}
+		}
+		var f []Value
+		for i, e := range x.e {
+			ne := p.cloneValue(e)
+			if f == nil && !sameValueObj(ne, e) {
+				f = make([]Value, len(x.e))
+				copy(f, x.e[:i])
+			}
+			if f != nil {
+				f[i] = ne
+			}
+		}
+		if f == nil {
+			return x
+		}
+		return ArrayV{f}
+	case PtrV:
+		if x.c == nil {
+			return x
+		}
+		return PtrV{c: p.cloneCell(x.c), path: x.path}
+	case SliceV:
+		if x.c == nil {
+			return x
+		}
+		x.c = p.cloneCell(x.c)
+		return x
+	case MapV:
+		if x.m == nil {
+			return x
+		}
+		if n, ok := p.cloneMaps[x.m]; ok {
+			return MapV{n}
+		}
+		p.cellSeq++
+		n := &MapObj{id: p.cellSeq, kt: x.m.kt, vt: x.m.vt}
+		p.cloneMaps[x.m] = n
+		n.entries = make([]MapEntry, len(x.m.entries))
+		for i, e := range x.m.entries {
+			n.entries[i] = MapEntry{p.cloneValue(e.k), p.cloneValue(e.v)}
+		}
+		return MapV{n}
+	case IfaceV:
+		if x.t == nil {
+			return x
+		}
+		return IfaceV{t: x.t, v: p.cloneValue(x.v)}
+	case FuncV:
+		if len(x.binds) == 0 && x.recv == nil {
+			return x
+		}
+		nb := make([]Value, len(x.binds))
+		for i, b := range x.binds {
+			nb[i] = p.cloneValue(b)
+		}
+		return FuncV{fn: x.fn, binds: nb, intr: x.intr, recv: p.cloneValue(x.recv)}
+	case TupleV:
+		n := make(TupleV, len(x))
+		for i, e := range x {
+			n[i] = p.cloneValue(e)
+		}
+		return n
+	}
+	return v
+}
+
+func sameValueObj(a, b Value) bool {
+	defer func() { recover() }()
+	switch x := a.(type) {
+	case StructV:
+		y, ok := b.(StructV)
+		return ok && len(x.f) == len(y.f) && (len(x.f) == 0 || &x.f[0] == &y.f[0])
+	case ArrayV:
+		y, ok := b.(ArrayV)
+		return ok && len(x.e) == len(y.e) && (len(x.e) == 0 || &x.e[0] == &y.e[0])
+	case PtrV:
+		y, ok := b.(PtrV)
+		return ok && x.c == y.c
+	case SliceV:
+		y, ok := b.(SliceV)
+		return ok && x.c == y.c
+	case MapV:
+		y, ok := b.(MapV)
+		return ok && x.m == y.m
+	case IfaceV:
+		y, ok := b.(IfaceV)
+		return ok && x.t == y.t && sameValueObj(x.v, y.v)
+	case FuncV:
+		y, ok := b.(FuncV)
+		return ok && x.fn == y.fn && len(x.binds) == 0 && len(y.binds) == 0
+	case TupleV:
+		return false
+	}
+	return a == b
+}
+
+
+func (e *Engine) initTemplate(harness *ssa.Function) {
+	if e.tpl != nil {
+		return
+	}
+	sol := NewSolver(e.solverBin, e.timeoutMs, e.incTimeoutMs, false, false)
+	tp := &Path{eng: e, sol: sol, globals: map[*ssa.Global]*Cell{}, initDone: map[*ssa.Package]bool{},
+		funcs: map[*ssa.Function]bool{}, choicePts: map[string]bool{}, asserts: map[string]*assertStat{}, aux: map[string]interface{}{},
+		harness: "<init>"}
+	sol.BeginPath()
+	e.tpl = tp
+	func() {
+		defer func() {
+			if r := recover(); r != nil {
+				fmt.Fprintf(os.Stderr, "symgo: package initialisation failed in the template: %v\n", r)
+				e.tplErr = fmt.Sprint(r)
+			}
+		}()
+		if harness.Pkg != nil {
+			tp.ensureInit(harness.Pkg)
+		}
+	}()
 }
